@@ -374,6 +374,10 @@ def run(cx, rep):
     rep.rule("C07.12", "the intersection constructor the materialiser ends in never merges an index signature into an object with declared keys (= C08.10)")
     from rules.c01 import lifted_rules
     lifted_rules(cx, rep, "C07.12", (("rules.c08", "C08.10"),))
+    # ---------------------------------------------------------------- C07.14 (= C01.18)
+    # semantic indexed access T[K] on a tuple: the element type computed per atom is what code generation receives
+    rep.rule("C07.14", "indexed access into a list atom lets the rest element take part from the index that equals the prefix length (= C01.18)")
+    lifted_rules(cx, rep, "C07.14", (("rules.c01", "C01.18"),))
     # ---------------------------------------------------------------- C07.10
     rep.rule("C07.10", "a key looked up in the declared properties of an object is not answered without its index signature")
     declared_lookup_rule(cx, rep, "C07.10")
